@@ -35,6 +35,13 @@ def handleGather : List String → String
     | .outOfFuel => "fuel"
   | _ => "bad-op"
 
+/-- `shared <m1>|<m2>|...` (each a Nat list, "~" empty) -> sorted union without repetition -/
+def handleShared : List String → String
+  | [ms] =>
+    let mods := (ms.splitOn "|").map decNats
+    encNats ((sortNat (sharedHelpers mods)).eraseDups)
+  | _ => "bad-op"
+
 def decB (s : String) : Bool := s == "1"
 
 def decTM (s : String) : TM :=
